@@ -25,10 +25,13 @@ package dhcpv6
 // pool's network (netcontains = what network.Contains answers)
 //@   inv innet: forall i int :: 0 <= i && i < len(self.available) ==> netcontains(self.network, self.available[i])
 //@   inv alnet: forall d string :: d in self.allocated ==> netcontains(self.network, self.allocated[d])
+// "a declined address is not offered again": a quarantined address is neither free nor bound
+//@   inv qfree: forall i int, j int :: 0 <= i && i < len(self.quarantined) && 0 <= j && j < len(self.available) ==> ipkey(self.quarantined[i]) != ipkey(self.available[j])
+//@   inv qbound: forall i int, d string :: 0 <= i && i < len(self.quarantined) && d in self.allocated ==> ipkey(self.quarantined[i]) != ipkey(self.allocated[d])
 
 // The constructor establishes the invariants: the free list holds only addresses of the network.
 //@ func NewAddressPool
-//@   ensures err == nil ==> result != nil && fresh(result) && result.nonnil && result.innet && result.alnet
+//@   ensures err == nil ==> result != nil && fresh(result) && result.nonnil && result.innet && result.alnet && result.qfree && result.qbound
 //@   ensures err == nil ==> len(result.allocated) == 0
 
 //@ loop NewAddressPool#1
